@@ -64,13 +64,21 @@ class UnknownClosure(Exception):
     pass
 
 
+_SIG_CACHE: dict = {}
+
+
 def _sig(fn):
+    """signature of a lambda's code object (one code object per lambda site: cached)"""
     code = fn.__code__
-    args = code.co_varnames[:code.co_argcount]
-    names = frozenset(code.co_names)
-    ops = tuple(i.argrepr for i in dis.get_instructions(fn) if i.opname == "BINARY_OP")
-    loads = tuple(i.argval for i in dis.get_instructions(fn) if i.opname.startswith("LOAD_FAST"))
-    return args, names, ops, loads
+    got = _SIG_CACHE.get(code)
+    if got is None:
+        args = code.co_varnames[:code.co_argcount]
+        names = frozenset(code.co_names)
+        ins = list(dis.get_instructions(code))
+        ops = tuple(i.argrepr for i in ins if i.opname == "BINARY_OP")
+        loads = tuple(i.argval for i in ins if i.opname.startswith("LOAD_FAST"))
+        got = _SIG_CACHE[code] = (args, names, ops, loads)
+    return got
 
 
 def _un_name(ufunc):
@@ -361,6 +369,21 @@ def cell_cover(rng):
         out.append(("mat:fro", M.FrobeniusNorm(m), U))
         out.append(("mat:mse", (m * m).sum(), U))
         out.append(("mat:mse2", (m - 1.5).sum(), U))
+    # index-array closures over 4-element operands: tagged "span" → all 24 orders + every span order
+    U4 = gen.Universe(rng, nvec=4, tag="q")
+    cs4 = np.array([2.0, -1.0, 0.5, 3.0])
+    Q4 = np.array([[(i + 1.0) * (j - 1.5) + (0.5 if i == j else 0.0) for j in range(4)] for i in range(4)])
+    for vn, v in (("x", U4.x), ("w0", U4.w[0:4]), ("w2", U4.w[2:6]), ("w1", U4.w[1:5]),
+                  ("xrev", U4.x[::-1])):
+        out.append((f"span:lc:{vn}", V.LinearCombination(cs4, v), U4))
+        out.append((f"span:vs:{vn}", V.VectorSum(v), U4))
+        out.append((f"span:ps:{vn}", V.VectorPowerSum(v, 3), U4))
+        out.append((f"span:us:{vn}", V.VectorUnarySum(v, "sin"), U4))
+        out.append((f"span:dot:{vn}", V.DotProduct(v, U4.y), U4))
+        out.append((f"span:dotself:{vn}", V.DotProduct(v, v), U4))
+        out.append((f"span:l1:{vn}", V.L1Norm(v), U4))
+        out.append((f"span:l2:{vn}", V.L2Norm(v), U4))
+        out.append((f"span:qf:{vn}", M.QuadraticForm(v, Q4), U4))
     # every vector node inside a scalar chain (the explicit-stack builder's per-kind branches)
     extra = []
     for tag, node, UU in out:
@@ -397,19 +420,102 @@ def chains(rng, thorough):
         # a chain with vector nodes and parameters as terms
         e = U.x.sum()
         for i in range(n):
-            t = [U.x.dot(U.y), (U.x ** 2).sum(), U.M.sum(), U.params[0], gen.unary("sin", U.x).sum() if False else
-                 U.scalars[0]][i % 5]
+            t = [U.x.dot(U.y), (U.x ** 2).sum(), U.M.sum(), U.params[0], U.scalars[0]][i % 5]
             e = e + t
         out.append((f"chain-vec:{n}", e, U))
     return out
 
 
-def v_variants(rng, e, U):
-    """ordered variable lists: own order, a permutation, a strict superset, a duplicate name, one missing"""
+def vector_operands(e):
+    """element lists (distinct Variables, in operand order) of the VectorVariable operands of the
+    vector nodes occurring in `e` — the index arrays `x[idx]` of the compiled closures"""
+    from optyx.core.expressions import BinaryOp, UnaryOp
+    from optyx.core.vectors import VectorVariable
+
+    out, seen = [], set()
+    stack = [e]
+    while stack:
+        n = stack.pop()
+        if isinstance(n, BinaryOp):
+            stack += [n.left, n.right]
+            continue
+        if isinstance(n, UnaryOp):
+            stack.append(n.operand)
+            continue
+        for attr in ("vector", "left", "right", "expression"):
+            sub = getattr(n, attr, None)
+            if sub is None:
+                continue
+            if isinstance(sub, VectorVariable):
+                if id(sub) not in seen:
+                    seen.add(id(sub))
+                    L = []
+                    for v in sub._variables:
+                        if v.name not in {w.name for w in L}:
+                            L.append(v)
+                    out.append(L)
+            elif hasattr(sub, "_expressions"):
+                stack += list(sub._expressions)
+        m = getattr(n, "matrix", None)
+        if m is not None and hasattr(m, "_expressions"):
+            stack += [x for row in m._expressions for x in row]
+    return out
+
+
+def span_orders(rng, L, own, foreign, how_many=2):
+    """ordered variable lists V ⊇ own in which the first and the last element of the vector operand
+    `L` sit exactly len(L)-1 positions apart although the operand is *not* laid out contiguously in
+    order: (i) endpoints in place, interior permuted (len ≥ 4); (ii) a foreign variable inside the
+    span and the displaced member outside (len ≥ 3); (iii) reversed operand.  These are the orders
+    on which a contiguous-slice shortcut for `x[idx]` would silently read the wrong entries."""
+    names = {v.name for v in L}
+    rest = [v for v in own if v.name not in names]
+    out = []
+
+    def wrap(core_block, displaced=()):
+        others = rest + list(displaced)
+        rng.shuffle(others)
+        cut = rng.randint(0, len(others))
+        return others[:cut] + core_block + others[cut:]
+
+    k = len(L)
+    if k >= 4:
+        for _ in range(how_many):
+            mid = L[1:-1]
+            for _try in range(8):
+                rng.shuffle(mid)
+                if mid != L[1:-1]:
+                    break
+            out.append(("span-interior", wrap([L[0]] + mid + [L[-1]])))
+    if k >= 3 and foreign:
+        for _ in range(how_many):
+            j = rng.randint(1, k - 2)
+            f = rng.choice(foreign)
+            block = [L[0]] + [f if i == j else L[i] for i in range(1, k - 1)] + [L[-1]]
+            out.append(("span-foreign", wrap(block, displaced=[L[j]])))
+        # a foreign variable inside and the *first* / *last* member displaced
+        f = rng.choice(foreign)
+        out.append(("span-foreign-end", wrap([L[1], L[0], f] + L[2:]) if k >= 3 else wrap(L)))
+    if k >= 2:
+        out.append(("span-reversed", wrap(list(reversed(L)))))
+    return out
+
+
+def v_variants(rng, e, U, spans=True):
+    """ordered variable lists: own order, a permutation, a strict superset, and — when the expression
+    has vector operands — the span orders of `span_orders`"""
     from optyx import Variable
 
     own = gen.expr_vars(e)
     out = [("own", list(own))]
+    if spans:
+        foreign = [v for v in U.all_vars() if v.name not in {w.name for w in own}]
+        ops = [L for L in vector_operands(e) if len(L) >= 3]
+        if ops:
+            L = rng.choice(ops)
+            picks = span_orders(rng, L, own, foreign, how_many=1)
+            rng.shuffle(picks)
+            out += picks[:2]
     if len(own) >= 2:
         perm = list(own)
         rng.shuffle(perm)
@@ -465,6 +571,15 @@ def run(ctx) -> core.Report:
         variants = v_variants(rng, e, U)
         own = variants[0][1]
         deep = tag.startswith("chain")
+        if tag.startswith("span:"):
+            import itertools
+
+            foreign = [v for v in U.all_vars() if v.name not in {w.name for w in own}]
+            L = vector_operands(e)[0]
+            variants = [("own", list(own))]
+            if len(own) <= 4:
+                variants += [("perm24", list(p)) for p in itertools.permutations(own)][1:]
+            variants += span_orders(rng, L, own, foreign, how_many=3 if len(own) > 4 else 2)
         if own and not deep and rng.random() < 0.15:
             # duplicate name: a second Variable object with the name of an existing one
             dup = list(own) + [Variable(own[0].name)]
@@ -478,6 +593,10 @@ def run(ctx) -> core.Report:
             newp = {p: rng.dy() for p in params}
             case = {"tag": tag, "vtag": vtag, "e": e, "s": s, "V": V, "vtxt": vtxt, "x": x, "pt": pt,
                     "params": params, "newp": newp, "thr_num": THRESHOLDS[(len(cases) + vi) % 3]}
+            if vtag.startswith(("span", "perm24")):
+                # both builders numerically: a bare vector node has depth estimate 0/1
+                case["thr_num"] = 0 if vi % 2 == 0 else 400
+                rep.histogram["V:" + vtag] = rep.histogram.get("V:" + vtag, 0) + 1
             cases.append(case)
 
     # ---- real code, then the protocol lines (the store text needs the post-set parameter values)
